@@ -464,13 +464,28 @@ class Validator:
         # negative occurrence, instantiated: for a source match on rows c, "no variant emits its tuple even when
         # its row choices are taken from the very rows of c".  not-exists implies this, so UNSAT of
         # (new match on c) and (this) proves that no new match is lost; a SAT answer is only a candidate.
-        lost_inst = []
-        for c, t, tss, cands in src:
-            is_new = z3.Or([x >= mid for x in tss]) if (rule_rec["seminaive"] and rule_rec["sole_focus"] is None) else z3.BoolVal(True)
-            emitted = [memb(model.plan_tuples(vp, tables, self.out_tid, nts, "inst", cands), t) for vp in vplans]
-            lost_inst.append(z3.And(c, is_new, z3.Not(z3.Or(emitted)) if emitted else z3.BoolVal(True),
-                                    *[a == b for a, b in zip(t, tup)]))
-        lost_inst = z3.And(z3.Or(lost_inst), not_old)
+        flat = self.flat_source()
+        positional = (len(rule_rec["atoms"]) == len(flat) == len(rule_rec["atom_mapping"])
+                      and all(ba["table"] == fa["table"] for ba, fa in zip(rule_rec["atoms"], flat)))
+        combos = list(itertools.product(*[range(tables[a["table"]].R) for a in flat])) if positional else None
+
+        def build_lost(use_positions):
+            # when the bridge-level atom list lines up with the source atoms (same number, same tables in the same order),
+            # the plan atom that came from source atom i is instantiated with exactly the row chosen for i.  Any restriction
+            # of the candidates keeps the instantiated query sound for UNSAT; it keeps self-joins from blowing up (3^4 choices
+            # per match).  A SAT answer under this restriction is re-asked with the per-table candidates.
+            out_ = []
+            for n_src, (c, t, tss, cands) in enumerate(src):
+                if use_positions:
+                    cands = dict(cands)
+                    for i_, pa in enumerate(rule_rec["atom_mapping"]):
+                        cands[("atom", pa)] = {combos[n_src][i_]}
+                is_new = z3.Or([x >= mid for x in tss]) if (rule_rec["seminaive"] and rule_rec["sole_focus"] is None) else z3.BoolVal(True)
+                emitted = [memb(model.plan_tuples(vp, tables, self.out_tid, nts, "inst", cands), t) for vp in vplans]
+                out_.append(z3.And(c, is_new, z3.Not(z3.Or(emitted)) if emitted else z3.BoolVal(True),
+                                   *[a == b for a, b in zip(t, tup)]))
+            return z3.And(z3.Or(out_), not_old)
+        lost_inst = build_lost(positional)
         res = {"mid": mid, "next_ts": next_ts, "n_variants": len(variants),
                "n_kept": sum(1 for v in variants if v["kept"] is not None)}
         # vacuity: the database constraints admit a match at all, and a new one
@@ -492,6 +507,11 @@ class Validator:
         s.add(wf)
         s.add(lost_inst)
         r2 = self.check(s, obligation=True)
+        if r2 == z3.sat and positional:
+            s = z3.Solver()
+            s.add(wf)
+            s.add(build_lost(False))
+            r2 = self.check(s, obligation=True)
         res["lost"] = str(r2)
         if r2 == z3.sat:
             # candidate only: confirm with the exact (fully expanded) negation when it is small enough,
